@@ -955,9 +955,9 @@ def run(ctx: Ctx):
         for t in TRICKY:
             codec_case(ctx, t)
             codec_case(ctx, [t, {"k": t}])
-        for _ in range(ctx.budget(3000, 100000)):
+        for _ in range(ctx.budget(3000, 60000)):
             codec_case(ctx, gen_meta(rng))
-        for _ in range(ctx.budget(1300, 20000)):
+        for _ in range(ctx.budget(1300, 13000)):
             meta = {rng.choice(["k", "key ", "nan", "a.b", "K"]) + str(i): gen_meta(rng) for i in range(rng.choice([0, 1, 2, 4]))}
             meta = {k: v for k, v in meta.items() if v is not None}
             if rng.random() < 0.03:      # a bare None: Dataset.write must refuse it (TypeError), as the model's writeDSM does
